@@ -29,7 +29,11 @@ RULE = ("paths = every solution of Basic/Specialized tracers in Antarctic, Green
         "replays 15-step shuffled histories (propagate with varying dt, N, interpolation; attenuation with equal-length "
         "arrays and scalars; attribute reads; a sibling solution of the same tracer) on ONE object and compares every "
         "step with a never-used path and with a numpy recomputation, checks that inputs are not mutated and outputs "
-        "do not alias. The form without polarisation (no force_real, negative frequencies looked up) is run for every "
+        "do not alias. FunctionSignal inputs (interpolated samples, analytic pulse, sum of two, ZHS/AVZ/ARZ Askaryan "
+        "pulses) are propagated on all four path classes, their outputs evaluated lazily after further calls, and "
+        "compared with the same samples as a plain Signal on a never-used path and with the recomputation; the "
+        "input's component/filter lists must stay untouched. -log(attenuation) is compared with an independent fine midpoint quadrature of ds/L_att along the path (uniform, "
+        "layered, direct basic/specialized). The form without polarisation (no force_real, negative frequencies looked up) is run for every "
         "interpolation step and compared with the numpy recomputation using the |f|-symmetric factor and with the "
         "s-component of the polarised form")
 LEVEL_TEXT = ("theorems C03_* proved over R for every path integral, every pair of indices, every incidence angle, "
@@ -463,6 +467,7 @@ def correspondence(run):
         prop_jobs.append(dict(job, pol=(name, vec), sig=rng.choice(["dense", "dense", "impulse"])))
         prop_jobs.append(dict(job, pol=rng.choice([None, sp_pols[0]]), sig="zero",
                               n=rng.choice([n, 2, 3]) if interp is None else n))
+        prop_jobs.append(dict(job, fn=True, n=max(n, 4)))
 
     # stage 1: everything above + the interpolation grids
     import scipy.fft
@@ -516,9 +521,19 @@ def correspondence(run):
         # the model's attenuation table comes from a path object that has no history
         fp, _ = make_paths(job["case"])
         fresh = fp[job["idx"]] if job["idx"] < len(fp) else path
-        sig = ps.Signal(times.copy(), vals.copy(), value_type=ps.Signal.Type.field)
         kw = {} if interp is None else {"attenuation_interpolation": interp}
-        (ss, sp), (us, up1) = path.propagate(sig, pol, **kw)
+        if job.get("fn"):
+            # lazily evaluated input: the outputs are read only after a further call on the same path
+            sig = ps.FunctionSignal(times.copy(), lambda q, _t=times.copy(), _v=vals.copy(): np.interp(q, _t, _v),
+                                    value_type=ps.Signal.Type.field)
+            (ss, sp), (us, up1) = path.propagate(sig, pol, **kw)
+            path.propagate(ps.Signal(times.copy(), vals[::-1].copy()), [0.3, -0.2, 0.9], **kw)
+            ss = ps.Signal(ss.times, ss.values)
+            sp = ps.Signal(sp.times, sp.values)
+            run.count("propagate_input_FunctionSignal")
+        else:
+            sig = ps.Signal(times.copy(), vals.copy(), value_type=ps.Signal.Type.field)
+            (ss, sp), (us, up1) = path.propagate(sig, pol, **kw)
         fs, av = atten_table(fresh, n, float(times[1] - times[0]), interp, grid)
         fr = path.fresnel
         e = [float(v) for v in path.emitted_direction]
@@ -620,6 +635,38 @@ def layered_junctions(path):
     return out
 
 
+def indep_exponent(path, kind, f, m=4000):
+    """integral of ds / L_att(z, f) along the path by a fine midpoint rule, from the geometry alone; None where the
+    integrand is singular (turning rays) or the path class is not covered"""
+    if kind == "layered":
+        parts = [indep_exponent(p, sub_kind(p), f, m) for p in path.paths]
+        return None if any(q is None for q in parts) else float(sum(parts))
+    ice = path.ice
+    if kind == "uniform":
+        pts = np.asarray(path._points, dtype=float)
+        tot = 0.0
+        for p1, p2 in zip(pts[:-1], pts[1:]):
+            length = float(np.linalg.norm(p2 - p1))
+            if length == 0:
+                continue
+            u = (np.arange(m) + 0.5) / m
+            zs = p1[2] + u * (p2[2] - p1[2])
+            tot += length * float(np.mean(1.0 / np.asarray(ice.attenuation_length(zs, float(f)), dtype=float)))
+        return tot
+    if kind in ("basic", "specialized") and path.direct:
+        z0, z1 = float(path.z0), float(path.z1)
+        if z0 == z1:
+            return None
+        u = (np.arange(m) + 0.5) / m
+        zs = z0 + u * (z1 - z0)
+        sin = float(path.n0) * math.sin(float(path.theta0)) / np.asarray(ice.index(zs), dtype=float)
+        if np.any(np.abs(sin) >= 0.999):
+            return None
+        ds = abs(z1 - z0) / m / np.sqrt(1 - sin ** 2)
+        return float(np.sum(ds / np.asarray(ice.attenuation_length(zs, float(f)), dtype=float)))
+    return None
+
+
 def check_path(run, case, idx, path, deep=False):
     rt, im, ps, li = mods()
     kind = sub_kind(path)
@@ -667,6 +714,19 @@ def check_path(run, case, idx, path, deep=False):
         if a0 < float(np.max(att)) * (1 - 1e-11):
             fail("attenuation-monotone", [0.0, a0, float(np.max(att))], "attenuation(0) >= attenuation(f)",
                  "attenuation grows with |f| from f=0")
+        # the exponent is the path integral of ds / L_att(z,|f|): independent fine quadrature
+        for fq in (1e8, 6e8):
+            ref = indep_exponent(path, kind, fq)
+            av = float(np.asarray(path.attenuation(np.array([fq])))[0])
+            if ref is None or not (av > 1e-280):
+                continue
+            got = -math.log(av)
+            run.count("attenuation_exponent_checked")
+            # clean-tree agreement: specialized 1e-4, layered 3e-4, uniform 6e-4 (left Riemann sum), basic 1.2e-3
+            if abs(got - ref) > {"basic": 4e-3}.get(kind, 2e-3) * ref + 1e-9:
+                fail("attenuation-integral", got, ref,
+                     "-log(attenuation) differs from the path integral of ds/L_att (fine midpoint quadrature)",
+                     extra={"f": fq})
 
     # ---- fresnel magnitude, independent recomputation
     fr = [complex(c) for c in path.fresnel]
@@ -773,6 +833,12 @@ def check_path(run, case, idx, path, deep=False):
             verify_scalar(path, ctx, t0, dt, x if n != 11 or ip is None else x[:10], ip,
                           dict(extra, step="scalar", interp=ip))
         verify_scalar(path, ctx, t0, dt, np.zeros(n), interp, dict(extra, step="scalar signal=zero"))
+        # lazily evaluated inputs: FunctionSignal and the Askaryan pulses (FunctionSignal subclasses)
+        fresh_f, _ = make_paths(case)
+        ff = fresh_f[idx] if idx < len(fresh_f) else None
+        for src in ("interp", "gauss", "zhs", "avz", "arz", "sum"):
+            verify_function_signal(path, ctx, t0, dt, n, src, pol, interp if src != "gauss" else None,
+                                   dict(extra, step="function-signal:%s" % src), g, fresh=ff)
 
     # ---- histories on one path object, compared step by step with never-used objects and the recomputation
     if which in ("all", "propagate", "history"):
@@ -947,6 +1013,120 @@ def verify_scalar(path, ctx, t0, dt, x, interp, extra, fresh=None):
             fail("history", float(np.max(np.abs(out.values - o2.values))), 0.0,
                  "propagate(signal) on a used path object differs from the same call on a never-used path",
                  extra=extra)
+
+
+def make_function_signal(src, times, g):
+    """a lazily evaluated input signal and the plain sampled signal with the same values"""
+    rt, im, ps, li = mods()
+    n = len(times)
+    if src == "interp":
+        t, v = times.copy(), g.standard_normal(n)
+        fs = ps.FunctionSignal(times.copy(), lambda q, _t=t, _v=v: np.interp(q, _t, _v))
+    elif src == "gauss":
+        c, w = float(times[n // 3]), 2.5 * float(times[1] - times[0])
+        fs = ps.FunctionSignal(times.copy(), lambda q, _c=c, _w=w: np.exp(-((q - _c) / _w) ** 2))
+    elif src == "sum":
+        t, v = times.copy(), g.standard_normal(n)
+        a = ps.FunctionSignal(times.copy(), lambda q, _t=t, _v=v: np.interp(q, _t, _v))
+        c, w = float(times[n // 2]), 1.5 * float(times[1] - times[0])
+        fs = a + 0.5 * ps.FunctionSignal(times.copy(), lambda q, _c=c, _w=w: np.exp(-((q - _c) / _w) ** 2))
+    else:
+        import pyrex
+        from pyrex import askaryan
+        cls = {"zhs": askaryan.ZHSAskaryanSignal, "avz": askaryan.AVZAskaryanSignal,
+               "arz": askaryan.ARZAskaryanSignal}[src]
+        part = pyrex.Particle(particle_id="nu_e", vertex=(0, 0, -1000), direction=(0, 0, 1), energy=1e8,
+                              interaction_type="cc")
+        fs = cls(times.copy(), part, math.radians(float(g.uniform(40, 70))), viewing_distance=100.0,
+                 t0=float(times[n // 4]) + 0.37 * float(times[1] - times[0]))   # off the sample grid: AVZ takes
+        # floor((t0 - times[0])/dt) of a float, and (times + tof) - tof is not bit-identical to times
+    plain = ps.Signal(times.copy(), np.array(fs.values, dtype=float).copy(), value_type=fs.value_type)
+    return fs, plain
+
+
+def fs_state(fs):
+    """the component lists of a FunctionSignal (what propagate must leave alone)"""
+    return (len(fs._functions), [float(t) for t in fs._t0s], [[float(b) for b in bb] for bb in fs._buffers],
+            [float(f) for f in fs._factors], [len(grp) for grp in fs._filters], [id(f) for f in fs._functions])
+
+
+def verify_function_signal(path, ctx, t0, dt, n, src, pol, interp, extra, g, fresh=None):
+    """propagate a FunctionSignal / Askaryan pulse; the outputs are evaluated only AFTER the call has returned and
+    after further calls on the same path; they must equal the identical plain Signal propagated on a never-used
+    path and the numpy recomputation, and the input must keep its component / filter lists"""
+    rt, im, ps, li = mods()
+    kind, fr, k2, fail = ctx["kind"], ctx["fr"], ctx["k2"], ctx["fail"]
+    if n < 8:
+        n = 8
+    if interp is not None and n == 11:
+        n = 12
+    times = t0 + dt * np.arange(n)
+    try:
+        fs, plain = make_function_signal(src, times, g)
+    except Exception:      # the signal classes themselves are other properties' subject
+        return
+    x = np.array(plain.values, dtype=float)
+    amp = float(np.max(np.abs(x))) * float(np.linalg.norm(pol)) * max(1.0, abs(fr[0]), abs(fr[1]))
+    if not np.all(np.isfinite(x)) or amp == 0:
+        return
+    kw = {} if interp is None else {"attenuation_interpolation": interp}
+    before = fs_state(fs)
+    pol = np.array(pol, dtype=float)
+    try:
+        (ss, sp), (us, up1) = path.propagate(fs, pol.copy(), **kw)
+        sc = path.propagate(fs, **kw)
+        # further calls on the same path before anything is evaluated
+        path.propagate(ps.Signal(times.copy(), g.standard_normal(n)), g.standard_normal(3), **kw)
+        _ = (path.tof, path.fresnel)
+        vs, vp, vc = (np.array(ss.values, dtype=float), np.array(sp.values, dtype=float),
+                      np.array(sc.values, dtype=float))
+    except Exception as e:      # noqa: BLE001
+        fail("crash", repr(e)[:200], "two signals", "propagate raised on a FunctionSignal input", extra=extra)
+        return
+    if fs_state(fs) != before or not np.array_equal(fs.times, times) \
+            or not np.allclose(fs.values, x, rtol=0, atol=1e-12 * float(np.max(np.abs(x)))):
+        fail("input-mutated", None, None, "propagate changed the component / filter lists of its FunctionSignal input",
+             extra=extra)
+    tof = float(path.tof)
+    for comp, o in (("s", ss), ("p", sp), ("scalar", sc)):
+        if len(o.times) != n or not np.array_equal(o.times, times + tof):
+            fail("grid", [comp], 0.0, "%s output of a FunctionSignal is not on the input grid delayed by tof" % comp,
+                 extra=extra)
+            return
+    ref = fresh if fresh is not None else path
+    (rs_, rp_), _ = ref.propagate(ps.Signal(times.copy(), x.copy()), pol.copy(), **kw)
+    rc_ = ref.propagate(ps.Signal(times.copy(), x.copy()), **kw)
+    for comp, got, ex, a in (("s", vs, rs_.values, amp), ("p", vp, rp_.values, amp),
+                             ("scalar", vc, rc_.values, float(np.max(np.abs(x))))):
+        if len(got) != len(ex) or float(np.max(np.abs(got - ex))) > 1e-9 * a + 1e-300:
+            j = int(np.argmax(np.abs(got - ex))) if len(got) == len(ex) else 0
+            fail("function-signal-" + comp, [j, float(got[j])], [j, float(ex[j])],
+                 "lazily evaluated %s output of a propagated FunctionSignal differs from the same samples propagated "
+                 "as a plain Signal on a never-used path" % comp, extra=extra)
+            return
+    if interp is None:
+        exp = recompute_reference(ref, kind, fr, times, x, pol)
+        for comp, ex, got in (("s", exp[0], vs), ("p", exp[1], vp)):
+            if float(np.max(np.abs(ex - got))) > 1e-7 * amp + 1e-300:
+                j = int(np.argmax(np.abs(ex - got)))
+                fail("recompute-" + comp, [j, float(got[j])], [j, float(ex[j])],
+                     "propagated %s-signal (FunctionSignal input) differs from shift + split + attenuation*Fresnel "
+                     "filter" % comp, extra=extra)
+    e_in = float(np.sum(x * x)) * float(pol @ pol)
+    e_out = float(np.sum(vs ** 2) + np.sum(vp ** 2))
+    if e_out > e_in * (1 + 1e-9):
+        gmax = max(abs(fr[0]), abs(fr[1])) ** 2
+        if kind == "layered" and k2 and e_out <= e_in * gmax * (1 + 1e-9):
+            fail("energy", e_out, e_in, "K2: energy gain from a layered transmission coefficient > 1", key="K2",
+                 extra=extra)
+        else:
+            fail("energy", e_out, e_in, "output carries more energy than the input (FunctionSignal input)",
+                 extra=extra)
+    # the two outputs must not share their component lists
+    if isinstance(ss, ps.FunctionSignal) and isinstance(sp, ps.FunctionSignal):
+        if ss._filters is sp._filters or any(a is b for a in ss._filters for b in sp._filters) \
+                or ss._filters is fs._filters or any(a is b for a in ss._filters for b in fs._filters):
+            fail("aliasing", None, None, "propagated FunctionSignals share their filter lists", extra=extra)
 
 
 def check_history(run, case, idx, kind, fr, k2, fail):
